@@ -1,5 +1,6 @@
 import CookModel.Lemmas.Collector
 import CookModel.Lemmas.CollectorFold
+import CookModel.Lemmas.ClosingStream
 /-
   C06  The recipe model is referentially consistent.
 
@@ -18,6 +19,8 @@ import CookModel.Lemmas.CollectorFold
   taken for a definition).  `C06_holds_partial` is `C06_statement` under the hypothesis that the
   events of `pullEvents` satisfy `EvOK`; that parser-side lemma is what is still missing for
   `C06_statement` itself, and is decided on every run by the invariant oracle meanwhile.
+  UPDATE: that lemma is now proved (`C06_parser_events_ok`, Lemmas/ClosingEvOK.lean and
+  Lemmas/ClosingStream.lean), and with it `C06_holds : C06_statement`.
 -/
 namespace Cook
 variable {α : Type} [Arith α]
@@ -176,6 +179,21 @@ theorem C06_holds_partial (env : Env) (input : Str) (c : Col Rat)
     (hparser : ∀ ev ∈ (pullEvents (α := Rat) env.cs env.ext input).1.toList, EvOK ev)
     (h : (parseRecipe (α := Rat) env input).output = some c) : RecipeInv c :=
   C06_recipe_inv_of_events env input _ c hparser h
+
+/-- the parser-side lemma: every event `pullEvents` emits satisfies `EvOK` — `parse_modifiers` sets the
+    intermediate data only at an `&` token, whose REF flag it inserts (or, in the duplicate-modifier
+    branch, finds already present); `timer` recovers a quantity when name and quantity are both missing;
+    no other parser emits ingredient or timer events (Lemmas/ClosingEvOK.lean, Lemmas/ClosingStream.lean) -/
+theorem C06_parser_events_ok (cs : CharSpec) (ext : Ext) (input : Str) :
+    ∀ ev ∈ (pullEvents (α := α) cs ext input).1.toList, EvOK ev := pullEvents_evOK cs ext input
+
+/-- **C06, complete.**  Every recipe `parse` returns — for every input, extension set and converter
+    environment, valid or alongside warnings — satisfies `RecipeInv`: item indices address existing
+    components, regular references point to an earlier definition that lists them back exactly once,
+    no section, step or paragraph is empty, steps are numbered 1,2,…, every timer has a name or a
+    quantity. -/
+theorem C06_holds : C06_statement :=
+  fun env input c h => C06_holds_partial env input c (pullEvents_evOK env.cs env.ext input) h
 
 /-! non-vacuity of `EvOK`: a plain ingredient, an intermediate reference with REF, a named timer -/
 example : ∀ ev ∈ ([.start .step,
